@@ -107,6 +107,8 @@ func runC04(r *Run) {
 		ok := got["p0.Voting"] == "p0.NextRound" && got["p0.NextRound"] == "p0.Voting" && got["p0.NextRound.RoundView.Round"] == "(p0.Voting.RoundView.Round + 1)" && len(got) == 3
 		r.Check(ok, "C04.1", "tmi.kState.incrementVotingRound(values)", w.Pos(fn.Pos()), fmt.Sprintf("assignments: %v", got))
 	}
+	r.Rule("C04.10", "every kernel call that moves the voting position (shift, round advance, round jump) is followed by the observer update persisting it on every success path, so the stored position never lags the live one (a restart would move the voting position backwards)")
+	positionPersistedAfterMove(r, "C04.10")
 	r.Expect("C04.1", 8, "position writers")
 
 	// ---- C04.3
